@@ -1,6 +1,6 @@
 // S-harness for cocls::queue<int>, cocls::queue<void> and cocls::limited_queue<int> (C09, C10).
 // Reads cases from stdin, prints one canonical line per operation (see lean/Drivers/C09.lean, C10.lean).
-// Kinds: `lq <limit>` (C10, run_case), `q` / `vq` (C09 sequential, run_qcase),
+// Kinds: `lq <limit>` (C10, run_case), `slq <limit>` (C10 scheduled interleavings, run_slqcase), `q` / `vq` (C09 sequential, run_qcase),
 // `sq` / `svq` (C09 scheduled interleavings, run_sqcase), `mtq` / `mtv` (C09 threads, run_mtcase).
 #include "common.h"
 #include <cocls/queue.h>
@@ -428,34 +428,56 @@ void run_mtcase(std::istream &in, bool is_void, const std::vector<std::string> &
 struct sched {
     struct opt {
         std::thread th;
-        int state = 0;          // 0 running, 1 parked after its lock region, 2 finished
+        int state = 0;          // 0 running, 1 parked after a lock region that left work to do outside the lock,
+                                // 2 finished, 3 parked in front of a second lock() of the same operation (slq only)
         bool go = false;
         bool result = false;
         bool is_push = false;
+        // slq bookkeeping
+        int regions = 0;        // lock regions entered so far
+        int shown = 0;          // ... of which already printed
+        int kind = 0;           // 0 push, 1 pop, 2 upush, 3 upop, 4 size, 5 empty
+        std::size_t id = 0;     // future id (push / pop)
+        std::size_t num = 0;    // result of size()
     };
     std::mutex m;
     std::condition_variable cv;
     std::deque<std::unique_ptr<opt>> paused;    // in the order in which they parked
+    bool park_relock = false;   // slq: an operation that locks a second time parks in front of that lock()
 };
 static sched *g_sched = nullptr;
 static thread_local sched::opt *tl_op = nullptr;
-static std::function<std::size_t()> g_nawait;
+// sizes of the containers of parked promises (`_awaiters`, `_blocked`): a lock region that made one of them
+// shorter moved a promise out and will resolve it after unlocking
+static std::function<std::pair<std::size_t, std::size_t>()> g_counts;
 
 struct sched_lock {
     std::mutex mx;
-    std::size_t before = 0;
-    void lock() { mx.lock(); before = g_nawait ? g_nawait() : 0; }
-    bool try_lock() { if (!mx.try_lock()) return false; before = g_nawait ? g_nawait() : 0; return true; }
+    std::pair<std::size_t, std::size_t> before{0, 0};
+    static void park(int st) {
+        std::unique_lock lk(g_sched->m);
+        tl_op->state = st;
+        g_sched->cv.notify_all();
+        g_sched->cv.wait(lk, [&] { return tl_op->go; });
+        tl_op->go = false;
+        tl_op->state = 0;
+    }
+    void enter() {
+        if (tl_op) ++tl_op->regions;
+        before = g_counts ? g_counts() : std::pair<std::size_t, std::size_t>{0, 0};
+    }
+    void lock() {
+        // an operation that comes back for a second lock region: anything may happen in between
+        if (tl_op && g_sched && g_sched->park_relock && tl_op->regions > 0) park(3);
+        mx.lock();
+        enter();
+    }
+    bool try_lock() { if (!mx.try_lock()) return false; enter(); return true; }
     void unlock() {
-        bool taken = g_nawait && g_nawait() < before;
+        bool taken = false;
+        if (g_counts) { auto now = g_counts(); taken = now.first < before.first || now.second < before.second; }
         mx.unlock();
-        if (taken && tl_op && g_sched) {
-            std::unique_lock lk(g_sched->m);
-            tl_op->state = 1;
-            g_sched->cv.notify_all();
-            g_sched->cv.wait(lk, [&] { return tl_op->go; });
-            tl_op->state = 0;
-        }
+        if (taken && tl_op && g_sched) park(1);
     }
 };
 
@@ -471,7 +493,7 @@ void run_sqcase(std::istream &in) {
     g_sched = &sc;
     alarm(15);      // never expected to fire; a hang must not stall the whole check
     std::unique_ptr<Q> q(new Q());
-    g_nawait = [&] { return q->nawait(); };
+    g_counts = [&] { return std::pair<std::size_t, std::size_t>{q->nawait(), 0}; };
     struct rec { std::unique_ptr<future<T>> f; bool reported = false; };
     std::deque<rec> pops;
     std::vector<std::string> evs;
@@ -523,7 +545,7 @@ void run_sqcase(std::istream &in) {
     auto shutdown = [&](const char *what) {
         std::ostringstream dummy;
         while (!sc.paused.empty()) resume_op(0, dummy);
-        g_nawait = nullptr;
+        g_counts = nullptr;
         q.reset();
         poll();
         vh::emit(what, evs);
@@ -592,6 +614,164 @@ void run_sqcase(std::istream &in) {
     alarm(0);
 }
 
+// ---------------------------------------------------------------------------------------------
+// C10 scheduled suite (`slq <limit>`): limited_queue<int> with the parking Lock.  Every operation
+// runs on its own thread.  It parks (a) after a lock region that moved a promise out of `_awaiters`
+// or `_blocked` (push handing over, pop admitting a blocked push, unblock_push, unblock_pop) - the
+// out-of-lock resolution is then performed by `deliver k` - and (b) in front of any second lock()
+// of the same operation (`midcall`): the correct code never does that, an implementation that
+// splits a lock region does, and the following input lines then run inside that window.
+// Every line shows the number of lock regions the operation entered (`r=`).
+// ---------------------------------------------------------------------------------------------
+struct slq_t : limited_queue<int, primitives::std_queue, primitives::std_queue, primitives::std_queue, sched_lock> {
+    using base = limited_queue<int, primitives::std_queue, primitives::std_queue, primitives::std_queue, sched_lock>;
+    using base::base;
+    suspend_point<bool> upop(std::exception_ptr e) { return this->unblock_pop(e); }
+    std::size_t nawait() const { return this->_awaiters.size(); }
+    std::size_t nblocked() const { return this->_blocked.size(); }
+};
+
+void run_slqcase(std::istream &in, std::size_t limit) {
+    sched sc;
+    sc.park_relock = true;
+    g_sched = &sc;
+    alarm(15);      // never expected to fire; a hang must not stall the whole check
+    std::unique_ptr<slq_t> q(new slq_t(limit));
+    g_counts = [&] { return std::pair<std::size_t, std::size_t>{q->nawait(), q->nblocked()}; };
+    struct prec { std::unique_ptr<future<int>> f; bool reported = false; };
+    struct urec { std::unique_ptr<future<void>> f; bool reported = false; };
+    std::deque<prec> pops;
+    std::deque<urec> pushes;
+    std::vector<std::string> evs;
+    std::string line;
+    static const char *names[] = {"push", "pop", "upush", "upop", "size", "empty"};
+    auto poll = [&] {
+        for (std::size_t i = 0; i < pops.size(); ++i)
+            if (!pops[i].reported && pops[i].f && pops[i].f->ready()) {
+                pops[i].reported = true;
+                evs.push_back("pop#" + std::to_string(i) + "=" + vh::outcome(*pops[i].f));
+            }
+        for (std::size_t i = 0; i < pushes.size(); ++i)
+            if (!pushes[i].reported && pushes[i].f && pushes[i].f->ready()) {
+                pushes[i].reported = true;
+                evs.push_back("push#" + std::to_string(i) + "=" + vh::outcome(*pushes[i].f));
+            }
+    };
+    // `push#3` / `pop#1` / `upush` ...
+    auto label = [&](sched::opt *o) {
+        std::string l = names[o->kind];
+        if (o->kind <= 1) l += "#" + std::to_string(o->id);
+        return l;
+    };
+    // what the finished call returned; marks the own future as reported when it is ready
+    auto status = [&](sched::opt *o) -> std::string {
+        switch (o->kind) {
+            case 0: { auto st = vh::outcome(*pushes[o->id].f); if (st != "pending") pushes[o->id].reported = true; return st; }
+            case 1: { auto st = vh::outcome(*pops[o->id].f); if (st != "pending") pops[o->id].reported = true; return st; }
+            case 4: return std::to_string(o->num);
+            default: return o->result ? "1" : "0";
+        }
+    };
+    auto regions = [&](sched::opt *o) { int d = o->regions - o->shown; o->shown = o->regions; return d; };
+    // wait until the op's thread finished or parked; finished ops are joined, parked ones queued
+    auto settle = [&](std::unique_ptr<sched::opt> o, std::ostringstream &head, bool first, bool quiet = false) {
+        sched::opt *op = o.get();
+        {
+            std::unique_lock lk(sc.m);
+            sc.cv.wait(lk, [&] { return op->state != 0; });
+        }
+        int st = op->state;
+        if (st == 2) op->th.join();
+        if (quiet) {
+            // flush before destruction: the results show up as ordinary events
+        } else if (first) {
+            head << label(op) << " " << (st == 2 ? status(op) : st == 1 ? "paused" : "midcall") << " r=" << regions(op);
+        } else {
+            head << "deliver r=" << regions(op) << " ret=" << (st == 2 ? label(op) + ":" + status(op) : st == 1 ? "again" : "midcall");
+        }
+        if (st != 2) sc.paused.push_back(std::move(o));
+    };
+    auto run_op = [&](int kind, std::size_t id, std::function<void(sched::opt *)> fn, std::ostringstream &head) {
+        auto o = std::make_unique<sched::opt>();
+        sched::opt *op = o.get();
+        op->kind = kind;
+        op->id = id;
+        op->th = std::thread([&sc, op, fn] {
+            tl_op = op;
+            fn(op);
+            std::unique_lock lk(sc.m);
+            op->state = 2;
+            sc.cv.notify_all();
+        });
+        settle(std::move(o), head, true);
+    };
+    auto resume_op = [&](std::size_t k, std::ostringstream &head, bool quiet = false) {
+        std::unique_ptr<sched::opt> o = std::move(sc.paused[k]);
+        sc.paused.erase(sc.paused.begin() + (std::ptrdiff_t)k);
+        {
+            std::unique_lock lk(sc.m);
+            o->state = 0;
+            o->go = true;
+            sc.cv.notify_all();
+        }
+        settle(std::move(o), head, false, quiet);
+    };
+    auto shutdown = [&](const char *what) {
+        while (!sc.paused.empty()) { std::ostringstream dummy; resume_op(0, dummy, true); }
+        g_counts = nullptr;
+        q.reset();
+        poll();
+        vh::emit(what, evs);
+    };
+    while (std::getline(in, line)) {
+        auto w = vh::split(line);
+        if (w.empty()) continue;
+        std::ostringstream head;
+        if (w[0] == "end") {
+            shutdown("end");
+            break;
+        } else if (w[0] == "destroy") {
+            shutdown("destroy");
+            while (std::getline(in, line)) {
+                auto w2 = vh::split(line);
+                if (!w2.empty() && w2[0] == "end") break;
+            }
+            vh::emit("end", evs);
+            break;
+        } else if (w[0] == "push") {
+            int v = w.size() > 1 ? atoi(w[1].c_str()) : 0;
+            std::size_t id = pushes.size();
+            pushes.emplace_back();
+            urec *r = &pushes[id];
+            run_op(0, id, [&q, r, v](sched::opt *) { r->f.reset(new future<void>([&] { return q->push(v); })); }, head);
+        } else if (w[0] == "pop") {
+            std::size_t id = pops.size();
+            pops.emplace_back();
+            prec *r = &pops[id];
+            run_op(1, id, [&q, r](sched::opt *) { r->f.reset(new future<int>([&] { return q->pop(); })); }, head);
+        } else if (w[0] == "upush" && w.size() > 1) {
+            int code = atoi(w[1].c_str());
+            run_op(2, 0, [&q, code](sched::opt *o) { o->result = q->unblock_push(std::make_exception_ptr(test_exc(code))); }, head);
+        } else if (w[0] == "upop" && w.size() > 1) {
+            int code = atoi(w[1].c_str());
+            run_op(3, 0, [&q, code](sched::opt *o) { o->result = q->upop(std::make_exception_ptr(test_exc(code))); }, head);
+        } else if (w[0] == "size") {
+            run_op(4, 0, [&q](sched::opt *o) { o->num = q->size(); }, head);
+        } else if (w[0] == "empty") {
+            run_op(5, 0, [&q](sched::opt *o) { o->result = q->empty(); }, head);
+        } else if (w[0] == "deliver" && w.size() > 1) {
+            std::size_t k = (std::size_t)atoi(w[1].c_str());
+            if (k < sc.paused.size()) resume_op(k, head); else head << "deliver none";
+        } else {
+            head << "bad-op";
+        }
+        poll();
+        vh::emit(head.str(), evs);
+    }
+    g_sched = nullptr;
+    alarm(0);
+}
+
 int main() {
     std::string line;
     while (std::getline(std::cin, line)) {
@@ -606,6 +786,7 @@ int main() {
         else if (kind == "mtq") run_mtcase(std::cin, false, w);
         else if (kind == "mtv") run_mtcase(std::cin, true, w);
         else if (kind == "lq") run_case<lq_t, int, true>(std::cin, (std::size_t)atoi(w[3].c_str()));
+        else if (kind == "slq") run_slqcase(std::cin, w.size() > 3 ? (std::size_t)atoi(w[3].c_str()) : 1);
         else std::cout << "bad-kind\n";
         std::cout.flush();
     }
